@@ -32,3 +32,6 @@ meta = {"name": name, "breaks_property": prop, "validated": valid,
         "caught_by": sorted(c for c, r in res.items() if r["exit"] != 0)}
 json.dump(meta, open(os.path.join(d, "meta.json"), "w"), indent=1)
 print("=>", name, "valid" if valid else "INVALID", "caught by", meta["caught_by"])
+
+# the evidence files were rewritten by runs against the CHANGED tree: restore the committed (clean-tree) ones
+subprocess.run(["git", "-C", "/verif", "checkout", "--", "evidence"])
